@@ -600,6 +600,9 @@ func main() {
 		hx.Fatal("tempdir: %v", err)
 	}
 	defer os.RemoveAll(dir)
+	// for `env=` tag options (mapping caches environment look-ups per process: set once, never changed)
+	os.Setenv("C17_TAGENV", "from-the-environment")
+	os.Setenv("C17_TAGPORT", "7")
 	for _, c := range cases {
 		w.Put(runCase(c, dir))
 	}
